@@ -745,7 +745,7 @@ def c03_14(ctx):
         v, f = by_name[name]
         fi = _finfo(ctx, f)
         body = [norm(s) for s in fi.node.body] if fi else []
-        ctx.check(body == ["stack.append(%s)" % want], "hash-op:%s" % name, fi.where if fi else STACKOPS + ":1", "%s is `%s`, expected push %s" % (name, body, want), what="hash:%s" % name, sample=None)
+        tcheck(ctx, body == ["stack.append(%s)" % want], "hash-op:%s" % name, fi.where if fi else STACKOPS + ":1", "%s is `%s`, expected push %s" % (name, body, want), what="hash:%s" % name, sample=None)
     # the VM funnels list errors of the raw handlers into ScriptError
     vm = ctx.p.cls(VM, "VM")
     for m in ("pop", "__getitem__"):
@@ -763,7 +763,7 @@ def c03_14(ctx):
         fi = _finfo(ctx, f)
         body = [norm(s) for s in fi.node.body if not (isinstance(s, ast.Expr) and isinstance(s.value, ast.Constant))]
         if want is not None:
-            ctx.check(body == want, "handler:%s" % name, fi.where, "%s is %s; consensus semantics: %s" % (name, body, want), what="handler:%s" % name, sample={"opcode": name, "body": body} if name == "OP_WITHIN" else None)
+            tcheck(ctx, body == want, "handler:%s" % name, fi.where, "%s is %s; consensus semantics: %s" % (name, body, want), what="handler:%s" % name, sample={"opcode": name, "body": body} if name == "OP_WITHIN" else None)
     for name, expr in (("OP_PICK", "vm.append(vm[-v - 1])"), ("OP_ROLL", "vm.append(vm.pop(-v - 1))")):
         v, f = by_name[name]
         fi = _finfo(ctx, f)
@@ -938,8 +938,21 @@ def c03_16(ctx):
     checked = [e for e in w.effects if e.kind == "call" and norm(e.raw.func) in ("checksig", "check_public_key_flags", "check_public_key_encoding")]
     r_pop = gi.f_or(*[e.reach for e in pops])
     r_chk = gi.f_or(*[e.reach for e in checked]) if checked else False
-    ctx.check(r_chk is not False and sym.entails(r_pop, r_chk), "every-popped-key-checked", ctx.where(cs),
-              "checksigs takes a public key on paths where neither checksig nor the encoding check sees it")
+    # ... except where both encoding flags are known to be off: there the check does nothing
+    off = [o for o in (gi.f_opaques(r_pop) if r_pop not in (True, False) else []) if isinstance(o, str) and ("VERIFY_STRICTENC" in o or "VERIFY_WITNESS_PUBKEYTYPE" in o or "bit(vm.flags" in o or "bit(flags" in o or "& vm.flags" in o or "& flags" in o)]
+    r_need = r_pop
+    if off and r_chk is not False and not sym.entails(r_pop, r_chk):
+        # the paths on which a key is taken unchecked: no verdict unless they can be taken with a flag set
+        unchecked = gi.f_and(r_pop, gi.f_not(r_chk))
+        flags_on = gi.f_or(*[("op", o) for o in off])
+        if not sym.can_hold(gi.f_and(unchecked, flags_on)) if hasattr(sym, "can_hold") else False:
+            r_need = gi.f_and(r_pop, r_chk)
+        else:
+            ctx.undecided("every-popped-key-checked", ctx.where(cs), "checksigs takes a public key without the encoding check on paths that also test the encoding flags (%s); this rule does not read whether a flag can be set there" % off[0][:60])
+            r_need = None
+    if r_need is not None:
+        ctx.check(r_chk is not False and sym.entails(r_need, r_chk), "every-popped-key-checked", ctx.where(cs),
+                  "checksigs takes a public key on paths where neither checksig nor the encoding check sees it")
     cg = ctx.func(CHECKSIG, "checksig")
     wg = sym.walk(ctx, cg)
     fl = [e for e in wg.effects if e.kind == "call" and norm(e.raw.func) in ("check_public_key_flags",)]
